@@ -151,6 +151,6 @@ Print Assumptions C19_csharp_invariant_decidable.
 (* the source statements the .NET generator model transcribes are the ones in the file now; the
    guard `ret_val == i32::MAX` fires on about one call in 2^31, so the recorded sequences alone
    would not notice its removal - this regenerated fact does *)
-Theorem C19_csharp_source_now : forallb snd Tables.prng_facts = true /\ (8 <= List.length Tables.prng_facts)%nat.
+Theorem C19_csharp_source_now : forallb snd Tables.prng_facts = true /\ (14 <= List.length Tables.prng_facts)%nat.
 Proof. exact tables_prng_facts. Qed.
 Print Assumptions C19_csharp_source_now.
